@@ -11,6 +11,7 @@ import GFO.Model.Tracker
 import GFO.Model.Smbo
 import GFO.Model.Local
 import GFO.Model.GridBackend
+import GFO.Model.Population
 open GFO GFO.Proto
 
 /-- one recorded backend interaction of the real run -/
@@ -24,6 +25,7 @@ structure Script where
   queue : List Item := []
   loc : Option (LocalCfg × Local) := none       -- when present: the COMPLETE backend model (GFO.Model.Local) is driven instead
   grid : Option (GridCfg × GridSt) := none      -- when present: the complete grid search model (GFO.Model.GridBackend)
+  pt : Option (PTCfg × PopSt) := none           -- when present: the complete parallel tempering model (GFO.Model.Population)
 deriving Inhabited
 
 def Script.raisesNow (s : Script) : Bool := match s.queue with
@@ -75,6 +77,24 @@ def scripted : Backend Script where
     | some (cfg, l), _ => ((localBackend cfg).finishInit l).map (fun l' => { s with loc := some (cfg, l') })
     | none, some (cfg, g) => ((gridBackend cfg).finishInit g).map (fun g' => { s with grid := some (cfg, g') })
     | none, none => scriptedOnly.finishInit s
+
+/-- … and the complete population model when that is the one loaded -/
+def backendOf : Backend Script where
+  initPos s := match s.pt with
+    | some (cfg, g) => ((ptBackend cfg).initPos g).map (fun x => (x.1, { s with pt := some (cfg, x.2) }))
+    | none => scripted.initPos s
+  iterate s := match s.pt with
+    | some (cfg, g) => ((ptBackend cfg).iterate g).map (fun x => (x.1, { s with pt := some (cfg, x.2) }))
+    | none => scripted.iterate s
+  evalInit s x := match s.pt with
+    | some (cfg, g) => ((ptBackend cfg).evalInit g x).map (fun g' => { s with pt := some (cfg, g') })
+    | none => scripted.evalInit s x
+  evaluate s x := match s.pt with
+    | some (cfg, g) => ((ptBackend cfg).evaluate g x).map (fun g' => { s with pt := some (cfg, g') })
+    | none => scripted.evaluate s x
+  finishInit s := match s.pt with
+    | some (cfg, g) => ((ptBackend cfg).finishInit g).map (fun g' => { s with pt := some (cfg, g') })
+    | none => scripted.finishInit s
 
 def showTracker (t : Tracker) : String :=
   s!"new={showOpt showPos t.posNew}:{showF t.scoreNew} cur={showOpt showPos t.posCurrent}:{showF t.scoreCurrent} " ++
@@ -129,7 +149,7 @@ def runCall (m : M) : M × List String :=
     let c : Call := { c0 with warm := if m.warm.isEmpty then c0.warm else some m.warm }
     let rows0 := m.d.rows.length
     let tr0 := m.d.trace.length
-    let r := if viaStepApi then stepApi scripted m.sp m.obj c m.d else searchCall scripted m.sp m.obj c m.d
+    let r := if viaStepApi then stepApi backendOf m.sp m.obj c m.d else searchCall backendOf m.sp m.obj c m.d
     match r with
     | .error e => ({ m with call := none, warm := [] }, ["err:" ++ e.toString])
     | .ok (d', res) =>
@@ -259,7 +279,10 @@ def exec (m : M) (cmd : String) : P (M × List String) := do
     match m.d.bst.loc, m.d.bst.grid with
     | some (cfg, l), _ => pure ({ m with d := { m.d with bst := { m.d.bst with loc := some (cfg, { l with tape := l.tape ++ [e] }) } } }, [])
     | none, some (cfg, g) => pure ({ m with d := { m.d with bst := { m.d.bst with grid := some (cfg, { g with tape := g.tape ++ [e] }) } } }, [])
-    | none, none => throw "no complete backend"
+    | none, none =>
+      match m.d.bst.pt with
+      | some (cfg, g) => pure ({ m with d := { m.d with bst := { m.d.bst with pt := some (cfg, { g with tape := g.tape ++ [e] }) } } }, [])
+      | none => throw "no complete backend"
   | "gnew" => do
     let nInits ← pNat
     let dirTok ← tok
@@ -278,6 +301,21 @@ def exec (m : M) (cmd : String) : P (M × List String) := do
       pure (m, [s!"outer {showTracker g.tr}", s!"inner {showTracker g.inner}",
                 s!"grid ptr={g.ptr} direction={showOpt toString g.dirCalc} tapeLeft={g.tape.length}"])
     | none => pure (m, ["err:no-grid-backend"])
+  | "pnew" => do
+    let nInits ← pNat
+    let nNb ← pNat
+    let rrp ← pRat
+    let nSwap ← pNat
+    let inits ← pList (pList (pN m.sp.dims.length pInt))
+    let mcfg : LocalCfg := { kind := .stochastic, nNeighbours := nNb, randRestP := rrp, geo := m.sp.geo }
+    let cfg : PTCfg := { member := mcfg, nIterSwap := nSwap }
+    let members : List Local := inits.map (fun l => { initL := l })
+    pure ({ m with d := { nInits := nInits, bst := { pt := some (cfg, { members := members }) } }, call := none, warm := [], steps := #[], byCall := #[] }, ["ok"])
+  | "pstate" =>
+    match m.d.bst.pt with
+    | some (_, g) =>
+      pure (m, [s!"outer {showTracker g.tr}"] ++ g.members.map (fun mb => s!"member {showTracker mb.tr}") ++ [s!"pop cur={g.cur} tapeLeft={g.tape.length}"])
+    | none => pure (m, ["err:no-population-backend"])
   | "lstep" => do
     let dur ← pRat; let r ← pRes
     pure ({ m with steps := m.steps.push (r, dur) }, [])
